@@ -71,7 +71,7 @@ func main() {
 			fmt.Fprintln(os.Stderr, "unknown kind", os.Args[2])
 			os.Exit(2)
 		}
-		in, err := ParseVal(os.Args[3])
+		in, err := ParseVal(argOrFile(os.Args[3]))
 		if err != nil {
 			fmt.Fprintln(os.Stderr, "bad case:", err)
 			os.Exit(2)
@@ -92,7 +92,7 @@ func main() {
 			usage()
 		}
 		k := kinds[os.Args[2]]
-		in, err := ParseVal(os.Args[3])
+		in, err := ParseVal(argOrFile(os.Args[3]))
 		if k == nil || err != nil || k.Oracle == nil {
 			fmt.Fprintln(os.Stderr, "bad shrink request")
 			os.Exit(2)
@@ -110,6 +110,20 @@ func main() {
 	default:
 		usage()
 	}
+}
+
+// argOrFile: an argument of the form @path is replaced by the contents of the file
+// (case values can be longer than the OS allows for one argument).
+func argOrFile(a string) string {
+	if len(a) > 0 && a[0] == '@' {
+		b, err := os.ReadFile(a[1:])
+		if err != nil {
+			fmt.Fprintln(os.Stderr, err)
+			os.Exit(2)
+		}
+		return string(b)
+	}
+	return a
 }
 
 func usage() {
